@@ -489,6 +489,10 @@ class Parser:
     def _process_macros(self, macros):
         for key, value in macros.items():
             value = value.strip()
+            if value.startswith('-'):
+                # '-' and the number are two tokens: white space (or a
+                # comment, replaced by a blank) may stand between them
+                value = '-' + value[1:].lstrip()
             if _r_int_literal.match(value):
                 self._add_integer_constant(key, value)
             elif value == '...':
